@@ -5,6 +5,7 @@ import (
 	"errors"
 	"io"
 	"sync"
+	"time"
 
 	"github.com/prometheus/prometheus/model/labels"
 	"google.golang.org/grpc"
@@ -29,6 +30,7 @@ type fakeClient struct {
 	filterNot      bool
 
 	frames    []*storepb.SeriesResponse
+	jitter    uint64 // != 0: Recv sleeps 0-300µs, derived from this seed and the frame index (schedule variation)
 	openErr   error
 	recvErrAt int // >= 0: the Recv after that many delivered frames fails with errInjected
 	hangAt    int // >= 0: the Recv after that many delivered frames blocks until the context ends
@@ -65,7 +67,7 @@ func (c *fakeClient) Series(ctx context.Context, in *storepb.SeriesRequest, _ ..
 	for i, f := range c.frames {
 		fr[i] = copyFrame(f)
 	}
-	return &fakeSeriesClient{ctx: ctx, frames: fr, recvErrAt: c.recvErrAt, hangAt: c.hangAt}, nil
+	return &fakeSeriesClient{ctx: ctx, frames: fr, recvErrAt: c.recvErrAt, hangAt: c.hangAt, jitter: c.jitter}, nil
 }
 
 func copySeries(s *storepb.Series) *storepb.Series {
@@ -95,9 +97,14 @@ type fakeSeriesClient struct {
 	i         int
 	recvErrAt int
 	hangAt    int
+	jitter    uint64
 }
 
 func (c *fakeSeriesClient) Recv() (*storepb.SeriesResponse, error) {
+	if c.jitter != 0 {
+		z := (c.jitter + uint64(c.i)*0x9e3779b97f4a7c15) * 0xbf58476d1ce4e5b9
+		time.Sleep(time.Duration((z>>33)%300) * time.Microsecond)
+	}
 	if c.hangAt >= 0 && c.i == c.hangAt {
 		<-c.ctx.Done()
 		return nil, c.ctx.Err()
